@@ -20,6 +20,21 @@ def run(ctx):
         return
     ctx.regen("all")
     okp, log = ctx.prove("props/C09.v", "C09")
+    # Go-source corpus: package layouts outside the generator (same-named packages with same-named implementations,
+    # conversions witnessed up- and downstream) and the listed conversion-site gaps (finding F41)
+    import os
+    from . import markers
+    kf_hits = []
+    nm, mbad = markers.check_markers(os.path.join(common.VERIF, "corpus", "c09"), known=kf_hits)
+    listed = set(x for k in ctx.known_for() for x in k.get("inputs", []))
+    for kid, place in kf_hits:
+        if kid in listed:
+            ctx.known_finding(kid.split("-")[0], "%s: conversion site not visited by the affiliation analyzer, the nil-returning implementation's result is dereferenced unreported (corpus/c09/%s)" % (kid, place))
+        else:
+            mbad.append("corpus/c09/%s: a nil-returning implementation's result is dereferenced through the interface and not reported (not a listed finding)" % place)
+    ctx.obligation("whole tool on corpus/c09: %d marked dereferences (same-named packages and types implementing one interface, conversions up- and downstream; the eight listed gaps of F41)" % nm, nm > 0 and not mbad)
+    for b in mbad[:3]:
+        ctx.violation("layout", "C09 fails on the real tool: %s\nreplay: bin/harness analyze -dir corpus/c09\n" % b)
     rng = random.Random(ctx.seed * 49979687 + 9)
     n = 400 if ctx.tier == "quick" else 6000
     batch = 400 if ctx.tier == "quick" else 1000
